@@ -222,6 +222,7 @@ def run(ctx):
         if len(samples) < 6 and case["id"] % 1361 == 7:
             samples.append({"comps": case["comps"], "inputs": case["inputs"], "injected": case["injected"],
                             "model": key, "implementation": {k: v for k, v in case["new_full"].items() if k in ("ok", "err", "msg", "T", "V", "N")}})
+    mism.sort(key=lambda m: 0 if "into a state" in m[2] or "returned a state" in m[2] or "!=" in m[2] else 1)
     for case, api, d in mism[:8]:
         V.violation(ctx, "%s: %s [inputs %s]" % (api, d, {k: v for k, v in case["inputs"].items() if v is not None}),
                     {"broken": "correspondence StateNewC03.v <-> %s (and the property: the implementation's result is what is wrong unless the "
